@@ -55,6 +55,12 @@ def sx_pat(t):
         return f'(dur {t[1]} {t[2]} {sx_pat(t[3])})'
     if k == 'delta':
         return f'(delta {t[1]} {sx_pat(t[2])})'
+    if k == 'monop':
+        return f'(mono {t[1]} {sx_binds(t[2])})'
+    if k == 'seq':
+        return '(seq ' + ' '.join(sx_pat(x) for x in t[1:]) + ')'
+    if k == 'pn':
+        return f'(pn {t[1]} {sx_pat(t[2])})'
     raise ValueError(t)
 
 
@@ -327,9 +333,51 @@ def o_events_bind(b, base):
     return out
 
 
+_mono_key = [0]
+
+
+def has_mono(t):
+    return t[0] == 'monop' or any(has_mono(x) for x in t[1:] if isinstance(x, list) and x and isinstance(x[0], str)
+                                  and x[0] in ('bind', 'par', 'dur', 'delta', 'chain', 'monop', 'seq', 'pn'))
+
+
 def o_timeline(t, base):
-    """Documented meaning of an event pattern: list of (start, event, rests, delta) + total length."""
+    """Documented meaning of an event pattern: list of (start, event, rests[, mark]) + total length.
+    mark = ('on' | 'set' | 'off', key, instrument) for the elements of a Pmono: its synth starts with its
+    first event and is released when the Pmono itself ends (start + sum of its deltas)."""
     k = t[0]
+    if k == 'monop':
+        evs = o_events_bind(t[2], base)
+        _mono_key[0] += 1
+        key = _mono_key[0]
+        tl, now = [], F(0)
+        for i, (e, rests) in enumerate(evs):
+            if rests:
+                raise Raise('rests in Pmono: outside the oracle')
+            d = o_delta(e)
+            if d is None:
+                raise Raise('delta')
+            tl.append((now, e, rests, ('on' if i == 0 else 'set', key, t[1])))
+            now += d
+        if evs:
+            tl.append((now, {}, set(), ('off', key, t[1])))
+        return tl, now
+    if k == 'seq':
+        tl, now = [], F(0)
+        for child in t[1:]:
+            c, ct = o_timeline(child, base)
+            tl += [(x[0] + now,) + tuple(x[1:]) for x in c]
+            now += ct
+        return tl, now
+    if k == 'pn':
+        tl, now = [], F(0)
+        for _ in range(int(t[1])):
+            c, ct = o_timeline(t[2], base)
+            tl += [(x[0] + now,) + tuple(x[1:]) for x in c]
+            now += ct
+        return tl, now
+    if k in ('chain', 'dur') and has_mono(t):
+        raise Raise('Pmono under Pchain / Pdur: outside the oracle')
     if k == 'bind':
         evs = o_events_bind(t[1], base)
         tl, now = [], F(0)
@@ -394,7 +442,7 @@ def o_timeline(t, base):
         sh = F(t[1])
         inner, total = o_timeline(t[2], base)
         if sh > 0:
-            return [(st + sh, e, r) for st, e, r in inner], total + sh
+            return [(x[0] + sh,) + tuple(x[1:]) for x in inner], total + sh
         return inner, total
     raise ValueError(t)
 
@@ -476,6 +524,95 @@ def oracle_mono(case):
     return msgs, t
 
 
+def histories(msgs):
+    """Commands grouped by the node they address: {node id: [(time, cmd, args without the id)]}."""
+    h = {}
+    for m in msgs:
+        pos = 3 if m[1] == '/s_new' else 2
+        nid = m[pos][1]
+        h.setdefault(nid, []).append((m[0], m[1], tuple(m[2:pos]) + tuple(m[pos + 1:])))
+    return [sorted(v, key=lambda x: (round(x[0], 6), x[1] != '/s_new')) for v in h.values()]
+
+
+def same_histories(a, b):
+    def key(h):
+        return tuple((round(x[0], 6), x[1], tuple((p[0], round(p[1], 6) if p[0] == 'n' else p[1]) for p in x[2])) for x in h)
+    a, b = sorted(a, key=key), sorted(b, key=key)
+    if len(a) != len(b):
+        return False
+    for ha, hb in zip(a, b):
+        if len(ha) != len(hb):
+            return False
+        for x, y in zip(ha, hb):
+            if x[1] != y[1] or len(x[2]) != len(y[2]) or not close(x[0], y[0]):
+                return False
+            for p, q in zip(x[2], y[2]):
+                if p[0] != q[0] or (p[0] == 'n' and not close(p[1], q[1])) or (p[0] == 's' and p[1] != q[1]):
+                    return False
+    return True
+
+
+def oracle_pattern_msgs(case):
+    """Expected commands of a composition that contains Pmonos, with symbolic node ids."""
+    lat, defs, prog = F(case['lat']), case['defs'], case['prog']
+    t0 = F(prog[1])
+    tl, total = o_timeline(prog[2], ({}, set()))
+    tl = sorted(tl, key=lambda x: x[0])
+    msgs, nid, held = [], [0], {}
+
+    def fresh():
+        nid[0] += 1
+        return float(nid[0])
+    for item in tl:
+        st, e, rests = item[0], item[1], item[2]
+        mark = item[3] if len(item) > 3 else None
+        t = t0 + st
+        if mark is None:
+            if rests or e.get('type') == 'rest':
+                continue
+            on, off = o_note(e, rests, t, lat, defs)
+            i = fresh()
+            msgs.append([on[0], '/s_new', ('s', on[1]), ('n', i), ('n', on[2]), ('n', on[3])] + on[4])
+            if off is not None:
+                msgs.append([off, '/n_set', ('n', i), ('s', 'gate'), ('n', 0.0)])
+        elif mark[0] == 'on':
+            e1 = dict(e, instrument=mark[2])
+            on, _ = o_note(e1, set(), t, lat, defs)
+            desc = next((d for d in defs if d['name'] == mark[2]), None)
+            has_gate = ('gate' in desc['controls']) if desc else (e1['has_gate'] if isinstance(e1.get('has_gate'), bool) else True)
+            i = fresh()
+            msgs.append([on[0], '/s_new', ('s', on[1]), ('n', i), ('n', on[2]), ('n', on[3])] + on[4])
+            held[mark[1]] = (i, [p[1] for p in on[4][::2]], has_gate)
+        elif mark[0] == 'set':
+            h = held[mark[1]]
+            args, freq = [], o_freq(e) * float(o_num(e, 'harmonic', 1)) + float(o_num(e, 'detune', 0))
+            for nm in h[1]:
+                if nm == 'freq':
+                    args += [('s', nm), ('n', freq)]
+                elif nm in e:
+                    x = e[nm]
+                    if isinstance(x, (bool, F)):
+                        args += [('s', nm), ('n', float(x))]
+                    elif isinstance(x, str):
+                        args += [('s', nm), ('s', x)]
+                    else:
+                        raise Raise(nm)
+                elif nm == 'amp':
+                    args += [('s', nm), ('n', o_amp(e))]
+                elif nm in ('pan', 'out'):
+                    args += [('s', nm), ('n', 0.0)]
+                else:
+                    raise Raise(nm)
+            msgs.append([float(t + lat), '/n_set', ('n', h[0])] + args)
+        else:                                           # the Pmono ends here: its synth is released now
+            h = held.pop(mark[1])
+            if h[2]:
+                msgs.append([float(t + lat), '/n_set', ('n', h[0]), ('s', 'gate'), ('n', 0.0)])
+            else:
+                msgs.append([float(t + lat), '/n_free', ('n', h[0])])
+    return msgs, t0 + total
+
+
 def oracle_notes(case):
     lat, defs, prog = F(case['lat']), case['defs'], case['prog']
     t0 = F(prog[1])
@@ -504,7 +641,7 @@ def oracle_notes(case):
             notes.append(o_note(e, rests, t, lat, defs))
         return notes, t
     tl, total = o_timeline(prog[2], ({}, set()))
-    for st, e, rests in tl:
+    for st, e, rests in [x[:3] for x in tl]:
         if rests or e.get('type') == 'rest':
             continue
         notes.append(o_note(e, rests, t0 + st, lat, defs))
@@ -712,19 +849,26 @@ class Gen:
         inst = r.choice(defs)['name'] if defs and r.random() < 0.8 else 'nodesc'
         return ['mono', inst, r.random() < 0.6, b]
 
-    def pat(self, defs, d=2):
+    def pat(self, defs, d=2, mono_ok=True):
         r = self.r
         x = r.random()
-        if d == 0 or x < 0.35:
+        if mono_ok and r.random() < 0.22:
+            m = self.mono(defs)
+            return ['monop', m[1], m[3]]
+        if d == 0 or x < 0.3:
             return self.bind(defs)
-        if x < 0.6:
-            return ['par'] + [self.pat(defs, d - 1) for _ in range(r.randint(1, 3))]
+        if mono_ok and x < 0.42:
+            return ['seq'] + [self.pat(defs, d - 1) for _ in range(r.randint(2, 3))]
+        if mono_ok and x < 0.5:
+            return ['pn', r.randint(1, 3), self.pat(defs, d - 1)]
+        if x < 0.65:
+            return ['par'] + [self.pat(defs, d - 1, mono_ok) for _ in range(r.randint(1, 3))]
         if x < 0.8:
-            return ['dur', self.dy(0, 4, (1, 2, 4, 8)), r.choice(['1/1000', '1/1000', '0', '1/8', '1/1024']), self.pat(defs, d - 1)]
+            return ['dur', self.dy(0, 4, (1, 2, 4, 8)), r.choice(['1/1000', '1/1000', '0', '1/8', '1/1024']), self.pat(defs, d - 1, False)]
         if x < 0.9:
-            return ['delta', self.dy(0, 2, (1, 2, 4)), self.pat(defs, d - 1)]
+            return ['delta', self.dy(0, 2, (1, 2, 4)), self.pat(defs, d - 1, mono_ok)]
         # Pbind(pitch/amp keys) <> p : no timing keys, as long as the source
-        inner = self.pat(defs, d - 1)
+        inner = self.pat(defs, d - 1, False)
         b = [[k, ['cyc', self.key_val(k)]] for k in self.r.sample(['amp', 'pan', 'foo', 'detune', 'ctranspose'], 2)]
         return ['chain', b, inner]
 
@@ -741,7 +885,7 @@ class Check(common.Check):
         'chain_degree_to_freq', 'chain_degree_to_midinote_steps', 'chain_note_to_midinote_steps',
         'player_plays_timetable', 'player_time_prefix_sums',
         'ppar_preserves_child_timelines', 'pdur_total', 'pdur_passes_prefix', 'player_ids_fresh',
-        'replay_ids_fresh', 'mono_held_single_node', 'mono_one_synth')]
+        'replay_ids_fresh', 'mono_held_single_node', 'mono_one_synth', 'playAllM_plain', 'seq_timetable')]
     N_QUICK = 2000
     N_THOROUGH = 40000
     ASSUMPTIONS = [
@@ -862,7 +1006,9 @@ class Check(common.Check):
             # the last wake-up of the player is at the time its timetable ends, unless a later
             # gate-off... (gate-offs are bundles, not wake-ups): compare directly
             end_ok = close(float(impl_out['end']), model_out['end'])
-        if not same_msgs(a, b) or died_impl != model_out['died'] or not end_ok:
+        same = same_histories(histories(self.impl_msgs(impl_out)), histories(model_out['msgs'])) \
+            if (case['prog'][0] == 'pat' and has_mono(case['prog'][2])) else same_msgs(a, b)
+        if not same or died_impl != model_out['died'] or not end_ok:
             return {'impl': a, 'model': b, 'impl_end': impl_out.get('end'), 'model_end': model_out['end'],
                     'impl_errors': impl_out['errors'],
                     'impl_build_error': impl_out['build_error'], 'model_died': model_out['died']}
@@ -882,6 +1028,24 @@ class Check(common.Check):
             if out.get('end') is not None and not close(float(out['end']), float(end)):
                 return {'what': f'the pattern ends at {out["end"]}, its timeline ends at {float(end)}',
                         'signature': 'end-time:mono'}
+            return None
+        if case['prog'][0] == 'pat' and has_mono(case['prog'][2]):
+            try:
+                exp, end = oracle_pattern_msgs(case)
+            except Raise:
+                return None
+            if out['errors'] != 0 or out['build_error']:
+                return {'what': f'playing raised ({out.get("error_text")})', 'signature': 'play-raises:mono-composition'}
+            raw = self.impl_msgs(out)
+            new_ids = [m[3][1] for m in raw if m[1] == '/s_new']
+            if len(set(new_ids)) != len(new_ids):
+                return {'what': f'node ids are not fresh: {new_ids}', 'signature': 'node-id-reused:' + self.top(case)}
+            if not same_histories(histories(raw), histories(exp)):
+                return {'what': 'per node, the commands sent are ' + repr(sorted(histories(raw)))[:900],
+                        'signature': 'node-history:' + self.top(case), 'expected': repr(sorted(histories(exp)))[:1500]}
+            if out.get('end') is not None and not close(float(out['end']), float(end)):
+                return {'what': f'the pattern ends at {out["end"]}, its timeline ends at {float(end)}',
+                        'signature': 'end-time:' + self.top(case)}
             return None
         try:
             notes, end = oracle_notes(case)
@@ -972,6 +1136,23 @@ class Check(common.Check):
                 elif k == 'mono':
                     for c in pc(['bind', t[3]]):
                         yield t[:3] + [c[1]]
+                elif k == 'monop':
+                    for c in pc(['bind', t[2]]):
+                        yield t[:2] + [c[1]]
+                elif k == 'pn':
+                    yield t[2]
+                    if int(t[1]) > 1:
+                        yield ['pn', int(t[1]) - 1, t[2]]
+                    for c in pc(t[2]):
+                        yield t[:2] + [c]
+                elif k in ('par', 'seq') and k == 'seq':
+                    for c in t[1:]:
+                        yield c
+                    for i in range(1, len(t)):
+                        if len(t) > 2:
+                            yield t[:i] + t[i + 1:]
+                        for c in pc(t[i]):
+                            yield t[:i] + [c] + t[i + 1:]
                 elif k == 'par':
                     for c in t[1:]:
                         yield c
@@ -1019,7 +1200,7 @@ class Check(common.Check):
                 h['pat']['mono-articulate'] = h['pat'].get('mono-articulate', 0) + bool(t[2])
                 return
             for x in t[1:]:
-                if isinstance(x, list) and x and isinstance(x[0], str) and x[0] in ('bind', 'par', 'dur', 'delta', 'chain'):
+                if isinstance(x, list) and x and isinstance(x[0], str) and x[0] in ('bind', 'par', 'dur', 'delta', 'chain', 'monop', 'seq', 'pn'):
                     walk(x)
         for c, o in zip(cases, outs):
             p = c['prog']
